@@ -70,8 +70,35 @@ Theorem C14_server_unrestricted_refuted :
   /\ c14s_ok e1_ops (tr_of e1_cfg e1_ops) = true.
 Proof. exact e1_witness. Qed.
 
+(* ---- the same WITHOUT the boundary, for tarpc's own consumer: Requests::execute /
+   Channel::execute = take_while(is_ok).filter_map(ok).map(execute) over the Requests stream
+   (ServerExec.v: futures-util 0.3 TakeWhile/FilterMap/Map transcribed, MODELLED NOT VERIFIED).
+   exec_ops is the op list the channel sees when the application polls the execute-stream. ---- *)
+From TarpcV Require Import ServerExec ServerExecProofs.
+
+Theorem C14_exec_stops_after_error : forall (T C : Type) (tp : transport T response cmsg) (ctl : T -> C -> T)
+    (tfuel : T -> nat) (c : cfg) (t0 : T) (eops : list (eop C)),
+  stops_after_error c (exec_ops tp ctl tfuel c t0 eops) (exec_trace tp ctl tfuel c t0 eops) = true.
+Proof. exact ServerExecProofs.exec_stops_after_error. Qed.
+
+Theorem C14_exec_no_poll_after_err : forall (T C : Type) (tp : transport T response cmsg) (ctl : T -> C -> T)
+    (tfuel : T -> nat) (c : cfg) (t0 : T) (eops : list (eop C)),
+  no_poll_after_err false (exec_ops tp ctl tfuel c t0 eops) (exec_trace tp ctl tfuel c t0 eops) = true.
+Proof. exact ServerExecProofs.exec_no_poll_after_err. Qed.
+
+(* the contract over the call logs of EVERY poll (polls_all, not polls_of) *)
+Theorem C14_server_contract_exec : forall (T C : Type) (tp : transport T response cmsg) (ctl : T -> C -> T)
+    (tfuel : T -> nat) (c : cfg) (t0 : T) (eops : list (eop C)),
+  tfuel_ok tp tfuel ->
+  contract_ok (fun _ : response => true)
+    (polls_all (exec_ops tp ctl tfuel c t0 eops) (exec_trace tp ctl tfuel c t0 eops)) = true.
+Proof. exact ServerExecProofs.C14_server_contract_exec. Qed.
+
 Print Assumptions C14_client_contract.
 Print Assumptions C14_client_poll_total.
 Print Assumptions C14_server_contract.
 Print Assumptions C14_server_poll_total.
 Print Assumptions C14_server_unrestricted_refuted.
+Print Assumptions C14_exec_stops_after_error.
+Print Assumptions C14_exec_no_poll_after_err.
+Print Assumptions C14_server_contract_exec.
